@@ -452,7 +452,7 @@ func deathClass(r wres) string {
 	case strings.Contains(s, "fatal error:"):
 		return "fatal"
 	case strings.Contains(s, "panic:"):
-		return "panic-outside-decoder"
+		return "panic" // a panic in a goroutine of the library (Transport) takes the process down
 	}
 	return "exit"
 }
